@@ -692,8 +692,14 @@ def check_enum_bounds(ctx, rule: str):
     ctx.ob(rule, construct(f3, "missing values get a group of their own iff n_groups < max_n_mod"), ok, loc(f3), "" if ok else f"comparisons: {sorted(cs)}")
     loops = [n for n in walk_no_nested(f3.node) if isinstance(n, ast.For) and unparse(n.iter).replace(" ", "") == "range(len(combination))"]
     ok = len(loops) == 1 and any(isinstance(s, ast.Assign) and unparse(s.targets[0]) == f"new_combination[{unparse(loops[0].target)}]" and "[str_nan]" in unparse(s.value) for s in ast.walk(loops[0]))
+    # the same candidates written as one slicing comprehension: c[:n] + [c[n] + [str_nan]] + c[n + 1:]
+    for lc in ast.walk(f3.node):
+        if isinstance(lc, (ast.ListComp, ast.GeneratorExp)) and len(lc.generators) == 1 and not lc.generators[0].ifs and unparse(lc.generators[0].iter).replace(" ", "") == "range(len(combination))":
+            n_ = unparse(lc.generators[0].target)
+            if unparse(lc.elt).replace(" ", "") == f"combination[:{n_}]+[combination[{n_}]+[str_nan]]+combination[{n_}+1:]":
+                ok = True
     ctx.ob(rule, construct(f3, "missing values are tried inside every group"), ok, loc(f3))
-    ok = any(isinstance(s, ast.AugAssign) and "new_combination + [[str_nan]]" in unparse(s.value) for s in ast.walk(f3.node))
+    ok = any(isinstance(s, (ast.AugAssign, ast.Call)) and ("new_combination + [[str_nan]]" in unparse(s) or "combination + [[str_nan]]" in unparse(s)) for s in ast.walk(f3.node))
     ctx.ob(rule, construct(f3, "the extra candidate is the combination plus the group [str_nan]"), ok, loc(f3))
     fg = repo.find_function(f"{F_BC}::BaseCarver._get_best_combination")
     c1 = calls(fg, "consecutive_combinations")
